@@ -1453,6 +1453,15 @@ func (vm *VM) run() (Addr, bool) {
 						}
 					} else {
 						length = v.Len()
+						if kind == reflect.Array && c != 0 {
+							// The range expression of an array is evaluated
+							// once: the loop iterates over a copy, so that
+							// assignments to the array in the body are not
+							// seen by the following iterations.
+							cp := reflect.New(v.Type()).Elem()
+							cp.Set(v)
+							v = cp
+						}
 					}
 					for i := range length {
 						if b != 0 {
